@@ -1246,6 +1246,16 @@ impl TransactionalMemory {
         Ok(state.latest_slot().transaction_id)
     }
 
+    // The latest commit's id together with its data root, read under one lock so that they
+    // belong to the same commit
+    pub(crate) fn get_last_committed_transaction_and_data_root(
+        &self,
+    ) -> Result<(TransactionId, Option<BtreeHeader>)> {
+        let state = self.state.lock()?;
+        let slot = state.latest_slot();
+        Ok((slot.transaction_id, slot.user_root))
+    }
+
     pub(crate) fn get_last_durable_transaction_id(&self) -> Result<TransactionId> {
         let state = self.state.lock()?;
         Ok(state.header.primary_slot().transaction_id)
